@@ -47,7 +47,7 @@ OBL = {
     "masked inputs": dict(phase="online", need=[("conflicting-mask", {"PRESENCE"}, 1)], verified=True),
     "labels": dict(phase="online", delegated="lambda", why="wire labels are authenticated by the AEAD rows they decrypt and by the output label check"),
     "output wire shares": dict(phase="online", need=[("output-mask-mac", MAC | {"KEY"}, 1)], bit_rule=True, presence=True),
-    "lambda": dict(phase="online", need=[("output-label", {"CMP", "LABEL", "DELTA"}, 1)]),
+    "lambda": dict(phase="online", need=[("output-label", {"CMP", "LABEL", "DELTA", "BIT_BOUND"}, 1)]),
 }
 DEALER = {"delta", "random shares", "AND shares", "delta (fpre)", "random shares (fpre)", "AND shares (fpre)", "error"}
 OTHER_OT = {"ALSZ_OT_y0y1", "ALSZ_OT_y", "KOS_OT_send"}
@@ -111,6 +111,10 @@ def enrich(S):
                     c.ing.add("DELTA")
                 if ty in (secmod.T_LABEL, "&" + secmod.T_LABEL):
                     c.ing.add("LABEL")
+            sib = [x for x in S.checks() if x.bk == c.bk and x.block == sw]
+            for x in sib:
+                if "BIT_BOUND" in x.ing:
+                    c.ing.add("BIT_BOUND")
         # (2) zero test: `iter.any(|x| x != 0)` / comparison with literal 0 on accumulated hashes
         for cbi, names in c.calls:
             if any(n.endswith("Iterator::any") or n.endswith("::any") or n.endswith("Iterator::all") for n in names):
